@@ -52,6 +52,10 @@ QUERIES = [("counter", b"a.b"), ("gauge", b"a.b.c"), ("observer", b"b"), ("count
 
 
 def run(rep, tier, seed, replay):
+    if replay and E2E.replay_case(rep, "C14", replay):
+        rep.cov.setdefault("trusted_base", ["end-to-end replay of one case against the built binary"])
+        rep.cov.setdefault("rule", "replay of one end-to-end case")
+        return
     rep.cov["trusted_base"] = TRUSTED
     rnd = random.Random(seed)
     nseq = 400 if tier == "quick" else 10000
